@@ -27,6 +27,7 @@ import (
 	"github.com/sirupsen/logrus"
 	gproto "google.golang.org/protobuf/proto"
 
+	as "github.com/dfklegend/cell2/actorex/service"
 	api "github.com/dfklegend/cell2/apimapper"
 	"github.com/dfklegend/cell2/apimapper/apientry"
 	"github.com/dfklegend/cell2/utils/logger"
@@ -69,6 +70,7 @@ var (
 	tNoCtxP  = reflect.TypeOf((*NoCtx)(nil))
 	tVCtxV   = reflect.TypeOf(VCtx{})
 	tVCtxP   = reflect.TypeOf((*VCtx)(nil))
+	tRemoteP = reflect.TypeOf((*as.RemoteContext)(nil))
 	tInt     = reflect.TypeOf(int(0))
 	tString  = reflect.TypeOf("")
 	tAny     = reflect.TypeOf((*interface{})(nil)).Elem()
@@ -87,7 +89,7 @@ var (
 
 // type identity tokens
 var typeIDs = map[reflect.Type]int64{
-	tDummyP: 1, tZCtxP: 2, tNoCtxP: 3, tDummyV: 4, tVCtxV: 5, tICtx: 6, tVCtxP: 7, tInt: 8,
+	tDummyP: 1, tZCtxP: 2, tNoCtxP: 3, tDummyV: 4, tVCtxV: 5, tICtx: 6, tVCtxP: 7, tInt: 8, tRemoteP: 9,
 	tMsgAP: 10, tMsgBP: 11, tHelloP: 12, tMsgAV: 13, tString: 15, tMsgAPP: 16, tIntP: 17, tAny: 18,
 	tCB: 20, tFunc2: 21, tFunc0: 22, tOtherCB: 23, tCBSlice: 24,
 }
@@ -335,26 +337,35 @@ func (n nameFn) apply(s string) string {
 
 // ---- running zoo methods ----
 
-type completer func(err bool)
+// completer(err, bad): run the completion function with an error / with a result (one that
+// protoactor can serialise, or - bad - one it cannot)
+type completer func(err bool, bad bool)
 
 var errZoo = errors.New("zoo error")
 
+func resultOf(bad bool) interface{} {
+	if bad {
+		return "a result that is not a proto message"
+	}
+	return &msgs.TestHello{I: 77}
+}
+
 func cbA(cb apientry.HandlerCBFunc) completer {
-	return func(e bool) {
+	return func(e bool, bad bool) {
 		if e {
 			cb(errZoo, nil)
 		} else {
-			cb(nil, "ok")
+			cb(nil, resultOf(bad))
 		}
 	}
 }
 
 func cbF(cb func(error, interface{})) completer {
-	return func(e bool) {
+	return func(e bool, bad bool) {
 		if e {
 			cb(errZoo, nil)
 		} else {
-			cb(nil, "ok")
+			cb(nil, resultOf(bad))
 		}
 	}
 }
@@ -366,7 +377,7 @@ var (
 
 func complete(c completer, e bool) {
 	if c != nil {
-		c(e)
+		c(e, false)
 	}
 }
 
@@ -391,6 +402,10 @@ func act(uid int64, isNil bool, get func() int64, comp completer) {
 	case "BTwice":
 		complete(comp, false)
 		complete(comp, false)
+	case "BOkBad":
+		if comp != nil {
+			comp(false, true)
+		}
 	default:
 		panic("c13: behaviour " + curBeh)
 	}
@@ -408,6 +423,8 @@ func ctxOf(a any) api.IContext {
 		return &ZCtx{}
 	case 7:
 		return &VCtx{}
+	case 9:
+		return as.NewRemoteContext()
 	}
 	panic("c13: no context value of that type")
 }
@@ -443,10 +460,23 @@ func guarded(f func()) (tr []any, esc bool) {
 	return
 }
 
-// Exec runs one op list against a fresh real collection.  It returns the ops as they have to be
-// shown to the model (descriptors and decode tables re-derived here) and the observations.
+// Exec runs one op list against fresh real collections (and, for ODispatch, a fresh real service
+// with a recording peer).  It returns the ops as they have to be shown to the model (descriptors,
+// decode tables and the dispatcher's context re-derived here) and the observations.
 func Exec(ops []hx.T) (norm []hx.T, obs []any, nontrivial bool, seenTags map[string]bool) {
-	col := apientry.NewCollection()
+	cols := map[int64]*apientry.APICollection{}
+	col := func(k int64) *apientry.APICollection {
+		if cols[k] == nil {
+			cols[k] = apientry.NewCollection()
+		}
+		return cols[k]
+	}
+	var w *world
+	defer func() {
+		if w != nil {
+			w.close()
+		}
+	}()
 	seenTags = map[string]bool{}
 	note := func(tr []any, esc bool, withCB bool) {
 		inv, ok, bad := 0, 0, 0
@@ -469,8 +499,9 @@ func Exec(ops []hx.T) (norm []hx.T, obs []any, nontrivial bool, seenTags map[str
 	for _, o := range ops {
 		switch o.Name {
 		case "OReg":
-			zid := int(o.Term(0).Int(0))
-			ot := o.Term(1)
+			k := o.Int(0)
+			zid := int(o.Term(1).Int(0))
+			ot := o.Term(2)
 			group := strOf(ot.Args[0])
 			nf := nfOfTerm(ot.Args[1])
 			var opts []apientry.Option
@@ -480,21 +511,21 @@ func Exec(ops []hx.T) (norm []hx.T, obs []any, nontrivial bool, seenTags map[str
 			if nf.fn != nil {
 				opts = append(opts, apientry.WithNameFunc(nf.fn))
 			}
-			col.Register(zoo[zid], opts...)
-			norm = append(norm, hx.C("OReg", describe(zid), hx.C("O", bytesOf(group), nf.term)))
+			col(k).Register(zoo[zid], opts...)
+			norm = append(norm, hx.C("OReg", k, describe(zid), hx.C("O", bytesOf(group), nf.term)))
 			obs = append(obs, "BUnit")
 		case "OBuild":
-			col.Build()
+			col(o.Int(0)).Build()
 			norm = append(norm, o)
 			obs = append(obs, "BUnit")
 		case "OHas":
-			b := col.HasMethod(strOf(o.Args[0]))
+			b := col(o.Int(0)).HasMethod(strOf(o.Args[1]))
 			nontrivial = nontrivial || b
 			seenTags[fmt.Sprintf("obs:has=%v", b)] = true
 			norm = append(norm, o)
 			obs = append(obs, hx.C("BBool", b))
 		case "OArgT":
-			t := col.GetArgType(strOf(o.Args[0]))
+			t := col(o.Int(0)).GetArgType(strOf(o.Args[1]))
 			var r any = "None"
 			if t != nil {
 				r = hx.C("Some", tid(t))
@@ -502,36 +533,86 @@ func Exec(ops []hx.T) (norm []hx.T, obs []any, nontrivial bool, seenTags map[str
 			norm = append(norm, o)
 			obs = append(obs, hx.C("BArg", r))
 		case "OCallSer":
-			ser, route := o.Str(0), strOf(o.Args[1])
-			data := unpackBytes(o.Ints(2))
-			ctx, withCB := ctxOf(o.Args[4]), o.Bool(5)
-			curBeh = hx.AsTerm(o.Args[6]).Name
+			k, ser, route := o.Int(0), o.Str(1), strOf(o.Args[2])
+			data := unpackBytes(o.Ints(3))
+			ctx, withCB := ctxOf(o.Args[5]), o.Bool(6)
+			curBeh = hx.AsTerm(o.Args[7]).Name
 			var cb apientry.HandlerCBFunc
 			if withCB {
 				cb = func(e error, _ interface{}) { events = append(events, hx.C("EvComplete", e != nil)) }
 			}
-			tr, esc := guarded(func() { apientry.CallWithSerialize(col, ctx, route, data, cb, serOf(ser)) })
+			c := col(k)
+			tr, esc := guarded(func() { apientry.CallWithSerialize(c, ctx, route, data, cb, serOf(ser)) })
 			nontrivial = nontrivial || len(tr) > 0
 			note(tr, esc, withCB)
-			norm = append(norm, hx.C("OCallSer", ser, o.Args[1], o.Args[2], decodeTable(ser, data), o.Args[4], withCB, o.Args[6]))
+			norm = append(norm, hx.C("OCallSer", k, ser, o.Args[2], o.Args[3], decodeTable(ser, data), o.Args[5], withCB, o.Args[7]))
 			obs = append(obs, hx.C("BCall", tr, esc))
 		case "OCall":
-			route := strOf(o.Args[0])
+			k, route := o.Int(0), strOf(o.Args[1])
 			var arg any
-			if at := hx.AsTerm(o.Args[1]); at.Name == "AVal" {
+			if at := hx.AsTerm(o.Args[2]); at.Name == "AVal" {
 				arg = valueOf(at.Int(0), at.Int(1))
 			}
-			ctx, withCB := ctxOf(o.Args[2]), o.Bool(3)
-			curBeh = hx.AsTerm(o.Args[4]).Name
+			ctx, withCB := ctxOf(o.Args[3]), o.Bool(4)
+			curBeh = hx.AsTerm(o.Args[5]).Name
 			var cb apientry.HandlerCBFunc
 			if withCB {
 				cb = func(e error, _ interface{}) { events = append(events, hx.C("EvComplete", e != nil)) }
 			}
-			tr, esc := guarded(func() { col.Call(ctx, route, arg, cb) })
+			c := col(k)
+			tr, esc := guarded(func() { c.Call(ctx, route, arg, cb) })
 			nontrivial = nontrivial || len(tr) > 0
 			note(tr, esc, withCB)
 			norm = append(norm, o)
 			obs = append(obs, hx.C("BCall", tr, esc))
+		case "ODispatch":
+			ks, rid, route := o.Ints(0), o.Int(1), strOf(o.Args[2])
+			data := unpackBytes(o.Ints(3))
+			curBeh = hx.AsTerm(o.Args[7]).Name
+			if w == nil {
+				w = newWorld()
+			}
+			var cs []*apientry.APICollection
+			for _, k := range ks {
+				cs = append(cs, col(k))
+			}
+			events = []any{}
+			rsps, snap, ok := w.request(as.NewDispatcher(cs...), int32(rid), route, data)
+			inv := events
+			events = nil
+			rl := []any{}
+			for _, r := range rsps {
+				if int64(r.ReqId) != rid {
+					panic(fmt.Sprintf("c13: response for request id %d while %d was outstanding", r.ReqId, rid))
+				}
+				rl = append(rl, classify(r))
+			}
+			esc := snap.restarted || !ok
+			if !ok {
+				seenTags["obs:dispatch-hang"] = true
+			}
+			nontrivial = nontrivial || len(inv) > 0 || len(rl) > 0
+			rs := ""
+			for _, x := range rl {
+				switch t := x.(type) {
+				case string:
+					rs += "N"
+				case hx.T:
+					if t.Bool(0) {
+						rs += "E"
+					} else {
+						rs += "K"
+					}
+				}
+			}
+			seenTags[fmt.Sprintf("obs:dispatch request=%v,invoked=%d,responses=[%s],fell=%v", rid != 0, len(inv), rs, snap.fell)] = true
+			if esc {
+				seenTags["obs:escaped-panic"] = true
+			}
+			rawok := gproto.Unmarshal(data, &msgs.TestHello{}) == nil
+			norm = append(norm, hx.C("ODispatch", o.Args[0], rid, o.Args[2], o.Args[3], decodeTable("SProto", data), rawok,
+				hx.C("CTyp", int64(9)), o.Args[7]))
+			obs = append(obs, hx.C("BDisp", inv, rl, snap.fell, esc))
 		default:
 			panic("c13: unknown op " + o.Name)
 		}
@@ -574,7 +655,13 @@ func Run(cfg *hx.Config) error {
 	thorough := cfg.Tier == "thorough"
 	enumerateExposure(thorough, emit)
 	enumerateBehaviours(thorough, emit)
+	enumerateDispatch(thorough, emit)
 	for i := 0; i < cfg.N; i++ {
+		if i%3 == 2 {
+			ops, tags := genDispatch(cfg)
+			emit("random-dispatch", ops, tags)
+			continue
+		}
 		ops, tags := genRandom(cfg, i)
 		emit("random", ops, tags)
 	}
